@@ -110,8 +110,8 @@ static std::string utf8_of(const std::vector<uint32_t> &cps) { std::vector<uint8
 static void setup_pairs(Runner &r, const Tier &t) {
     g_proots.clear(); g_pcps.clear();
     struct FS { std::string f; std::vector<uint32_t> base; int dir; };
-    std::vector<FS> fs = { { gen_dir() + "/s_full.ttf", { 0x61, 0x62, 0x301 }, 0 }, { font_path("Awami_test.ttf"), { 0x628, 0x6CC, 0x200C }, 1 }, { font_path("small.ttf"), { 0x61, 0x62 }, 0 } };
-    if (t.thorough) { fs.push_back({ font_path("Padauk.ttf"), { 0x1000, 0x103B, 0x200B }, 0 }); fs.push_back({ font_path("charis_r_gr.ttf"), { 0x61, 0x66, 0x301 }, 0 }); fs.push_back({ font_path("Scheherazadegr.ttf"), { 0x628, 0x633, 0x200D }, 1 }); }
+    std::vector<FS> fs = { { gen_dir() + "/s_full.ttf", { 0x61, 0x62, 0x301, 0x10000, 0x10400 }, 0 }, { font_path("Awami_test.ttf"), { 0x628, 0x6CC, 0x200C }, 1 }, { font_path("small.ttf"), { 0x61, 0x62 }, 0 } };
+    if (t.thorough) { fs.push_back({ font_path("Padauk.ttf"), { 0x1000, 0x103B, 0x200B }, 0 }); fs.push_back({ font_path("charis_r_gr.ttf"), { 0x61, 0x66, 0x301, 0x1D510, 0x1D513 }, 0 }); fs.push_back({ font_path("Scheherazadegr.ttf"), { 0x628, 0x633, 0x200D }, 1 }); }
     for (auto &f : fs) for (unsigned o : { 0u, 6u }) { PRoot pr{ f.f, o, f.base, f.dir };
         std::vector<uint32_t> cps = f.base; { TableSet ts; if (ts.from_file(f.f)) { MemFace mf; mf.ts = &ts; gr_face *face = mf.make(0); if (face) { const graphite2::Face *F = static_cast<const graphite2::Face*>(face);
             for (unsigned si = 0; si < F->m_numSilf; ++si) for (unsigned k = 0; k < F->m_silfs[si].m_numPseudo && k < 4; ++k) cps.push_back(F->m_silfs[si].m_pseudos[k].uid); gr_face_destroy(face); } } }
